@@ -179,7 +179,8 @@ fn run(ctx: &Ctx) -> Run {
                     None => continue,
                 }
             };
-            let seg = if rng.chance(0.15) { None } else { Some(1 + rng.below(64) as i32) };
+            // (small subdivisions as often as the whole range: a ring with few points per edge splits differently across a seam)
+            let seg = if rng.chance(0.15) { None } else if rng.chance(0.4) { Some(1 + rng.below(5) as i32) } else { Some(1 + rng.below(64) as i32) };
             let closed = rng.chance(0.5);
             if i % 3 == 1 {
                 prime_history_with(&mut rng, c, seg, closed);
@@ -188,6 +189,25 @@ fn run(ctx: &Ctx) -> Run {
             check_ring(run, c, seg, closed, class);
             run.count(&format!("class.{class}"));
             run.count(&format!("res.{res:02}"));
+        }
+        // polar cap x seam meridians: cells within 1e-7 .. 0.05 degrees of a pole that straddle (or sit next to) a meridian on
+        // which some representation of longitude has its seam, every small subdivision, closed and open
+        let n = ctx.n(24_000, 1_000_000) / threads as u64;
+        for _ in 0..n {
+            let res = 8 + rng.below(22) as i32;
+            let colat = 10f64.powf(rng.range(-7.0, -1.3));
+            let meridian = *rng.pick(&[180.0, -180.0, -93.0, 87.0, 0.0, 90.0, -90.0]);
+            // offsets up to a few cell widths at that colatitude (in degrees of longitude)
+            let width = (cell_size(res) / colat.to_radians().sin().max(1e-12)).to_degrees();
+            let lon = meridian + if rng.chance(0.3) { 0.0 } else { rng.range(-2.0, 2.0) * width };
+            let lat = (90.0 - colat) * rng.sign();
+            if let Some(c) = lookup(lon, lat, res).ok().and_then(decode) {
+                for seg in 1..=5 {
+                    check_ring(run, c, Some(seg), seg % 2 == 0, "polar_seam_meridian");
+                }
+                check_ring(run, c, None, true, "polar_seam_meridian");
+                run.count("class.polar_seam_meridian");
+            }
         }
         if w == 0 {
             // cells at the exact poles and the known D5 region, all fine resolutions
